@@ -902,6 +902,32 @@ func (vc *VC) builtinExtern(st *State, callee *types.Func, recv *Term, args []Te
 		return nil, true
 	case full == "strings.Clone":
 		return []Term{args[0]}, true
+	case full == "encoding/json.Unmarshal" && len(call.Args) == 2:
+		// json.Unmarshal(data, &x): x becomes a function of the bytes (what the library decodes), err == nil iff
+		// the library accepts them for that target type. The library is assumed deterministic and panic-free.
+		if ue, ok := ast.Unparen(call.Args[1]).(*ast.UnaryExpr); ok && ue.Op == token.AND {
+			target := ue.X
+			tt := vc.typeOf(target)
+			ts := vc.u.SortOf(tt)
+			data := args[0]
+			fn := "abs.jsonDecoded$" + sanitize(typeKey(tt))
+			okf := "abs.jsonOK$" + sanitize(typeKey(tt))
+			vc.u.declFun(fn, "("+data.Sort+") "+ts)
+			vc.u.declFun(okf, "("+data.Sort+") Bool")
+			e := vc.fresh("err", errT)
+			st.assume(vc.u.wfIface(e.S, st.alloc))
+			st.assume(eq(eq("(itag "+e.S+")", "0"), "("+okf+" "+data.S+")"))
+			nv := vc.fresh("decoded", tt)
+			st.assume(vc.u.WF(nv.S, tt, st.alloc))
+			st.assume(imp("("+okf+" "+data.S+")", eq(nv.S, "("+fn+" "+data.S+")")))
+			old := vc.evalExprQuiet(st.clone(), target)
+			// on error the target keeps what it had (partial writes are not modelled)
+			fin := nv
+			fin.S = ite("("+okf+" "+data.S+")", nv.S, old.S)
+			vc.assign(st, target, fin)
+			vc.note("assumed: encoding/json.Unmarshal is a deterministic, panic-free function of its input bytes (abs.jsonDecoded / abs.jsonOK)")
+			return []Term{e}, true
+		}
 	case full == "context.TODO", full == "context.Background":
 		r := vc.fresh("ctx", callee.Type().(*types.Signature).Results().At(0).Type())
 		return []Term{r}, true
